@@ -11,6 +11,7 @@
  *   t <field>                       gd_tell64                                 -> "t <ret> <err>"
  *   e <field> / b <field>           gd_eof64 / gd_bof64                       -> "e <ret> <err>"
  *   c|f|y <field|*>                 gd_raw_close / gd_flush / gd_sync         -> "c <ret> <err>"
+ *   n                               gd_nframes64                              -> "n <ret> <err>"
  *   l <n>                           gd_open_limit                             -> "l <ret>"
  *   k <n>                           gd_mplex_lookback                         -> "k"
  *   r                               D->recurse_level (internal.h peek)        -> "r <level>"
@@ -197,6 +198,7 @@ int main(int argc, char **argv)
         int r = gd_put_constant(D, tok[1], GD_INT64, &v);
         printf("C %d %d", r, gd_error(D)); eol();
         break; }
+      case 'n': { off64_t r = gd_nframes64(D); printf("n %" PRId64 " %d", (int64_t)r, gd_error(D)); eol(); break; }
       case 'l': { long r = gd_open_limit(D, atol(tok[1])); printf("l %ld", r); eol(); break; }
       case 'k': gd_mplex_lookback(D, atoi(tok[1])); printf("k"); eol(); break;
       case 'r': printf("r %d", D->recurse_level); eol(); break;
